@@ -705,5 +705,143 @@ theorem proj_pushBackSelf (t : TVec α) (i : Nat) : (pushBackSelf t i).map (·.v
   | none => rfl
   | some x => exact proj_pushBack t x
 
+/-! ### which operations leave the buffer where it is (returned iterators stay valid) -/
+
+def Keeps (f : TVec α → Option (TVec α)) : Prop := ∀ t t', f t = some t' → t'.buf = t.buf
+
+theorem keeps_map {f : TVec α → Option (Vec α)} {g : TVec α → Vec α → TVec α} (hg : ∀ t v, (g t v).buf = t.buf) :
+    Keeps (fun t => (f t).map (g t)) := by
+  intro t t' e
+  cases hf : f t with
+  | none => simp [hf] at e
+  | some v => simp only [hf, Option.map_some, Option.some.injEq] at e; rw [← e]; exact hg t v
+
+theorem keeps_rawPush (x : α) : Keeps (fun t : TVec α => rawPush t x) := keeps_map (fun _ _ => rfl)
+theorem keeps_popBack : Keeps (fun t : TVec α => popBack t) := keeps_map (fun _ _ => rfl)
+theorem keeps_overwrite (pos : Nat) (seg : List α) : Keeps (fun t : TVec α => overwrite t pos seg) :=
+  keeps_map (fun _ _ => rfl)
+theorem keeps_assignCell (s d : Nat) : Keeps (fun t : TVec α => assignCell t s d) := keeps_map (fun _ _ => rfl)
+
+theorem keeps_bind {f g : TVec α → Option (TVec α)} (hf : Keeps f) (hg : Keeps g) :
+    Keeps (fun t => (f t).bind g) := by
+  intro t t' e
+  cases hft : f t with
+  | none => simp [hft] at e
+  | some t1 =>
+    simp only [hft, Option.bind_some] at e
+    rw [hg t1 t' e, hf t t1 hft]
+
+theorem keeps_popN (n : Nat) : Keeps (fun t : TVec α => popN n t) := by
+  induction n with
+  | zero => intro t t' e; cases e; rfl
+  | succ n ih => exact keeps_bind keeps_popBack ih
+
+theorem keeps_rawPushAll (xs : List α) : Keeps (fun t : TVec α => rawPushAll xs t) := by
+  induction xs with
+  | nil => intro t t' e; cases e; rfl
+  | cons x xs ih => exact keeps_bind (keeps_rawPush x) ih
+
+theorem keeps_copyFwd (n : Nat) : ∀ s d, Keeps (fun t : TVec α => copyFwd t s d n) := by
+  induction n with
+  | zero => intro s d t t' e; cases e; rfl
+  | succ n ih => intro s d; exact keeps_bind (keeps_assignCell s d) (ih (s + 1) (d + 1))
+
+theorem keeps_copyBwd (n : Nat) : ∀ s d, Keeps (fun t : TVec α => copyBwd t s d n) := by
+  induction n with
+  | zero => intro s d t t' e; cases e; rfl
+  | succ n ih => intro s d; exact keeps_bind (keeps_assignCell (s + n) (d + n)) (ih s d)
+
+/-- `pushAll` with live iterators of the caller (`stable`) succeeds only while nothing re-allocates -/
+theorem keeps_pushAll_stable (xs : List α) : Keeps (fun t : TVec α => pushAll true xs t) := by
+  induction xs with
+  | nil => intro t t' e; cases e; rfl
+  | cons x xs ih =>
+    intro t t' e
+    simp only [pushAll] at e
+    cases hd : doPushBack t x with
+    | none => simp [hd] at e
+    | some r =>
+      obtain ⟨t1, m⟩ := r
+      simp only [hd] at e
+      cases m with
+      | true => simp at e
+      | false =>
+        simp only [Bool.and_false, Bool.false_eq_true, if_false] at e
+        rw [ih t1 t' e]
+        -- not moved: the element was constructed in place
+        unfold doPushBack at hd
+        split at hd
+        · cases hr : rawPush t x with
+          | none => simp [hr] at hd
+          | some t2 =>
+            simp only [hr, Option.map_some, Option.some.injEq, Prod.mk.injEq] at hd
+            rw [← hd.1]; exact keeps_rawPush x t t2 hr
+        · split at hd <;> simp at hd
+
+/-- `erase` never moves the buffer -/
+theorem keeps_erase (first last : Nat) : Keeps (fun t : TVec α => erase t first last) := by
+  intro t t' e
+  have e' : erase t first last = some t' := e
+  unfold erase at e'
+  split at e'
+  · cases e'
+  split at e'
+  · cases e'; rfl
+  · exact keeps_bind (keeps_copyFwd _ _ _) (keeps_popN _) t t' e'
+
+/-- an insertion of `n` copies that fits into the spare capacity does not move the buffer -/
+theorem keeps_insertN_room (pos n : Nat) (x : α) (t t' : TVec α) (hroom : t.v.items.length + n ≤ t.v.alloc)
+    (e : insertN t pos n x = some t') : t'.buf = t.buf := by
+  unfold insertN at e
+  have hno : ¬ t.v.items.length + n > t.v.alloc := by omega
+  by_cases h1 : pos > t.v.items.length
+  · simp [h1] at e
+  simp only [h1, if_false] at e
+  by_cases h2 : pos = t.v.items.length
+  · simp only [h2, if_true] at e
+    have hr : reserve t (t.v.items.length + n) = t := by simp [reserve, hno]
+    rw [hr] at e
+    exact keeps_rawPushAll _ t t' e
+  simp only [h2, hno, if_false] at e
+  by_cases h3 : t.v.items.length - pos ≤ n
+  · simp only [h3, if_true] at e
+    exact keeps_bind (keeps_pushAll_stable _) (keeps_bind (keeps_pushAll_stable _) (keeps_overwrite pos _)) t t' e
+  · simp only [h3, if_false] at e
+    exact keeps_bind (keeps_pushAll_stable _) (keeps_bind (keeps_copyBwd _ _ _) (keeps_overwrite pos _)) t t' e
+
+/-- **insert(position, value)** returns an iterator to the inserted element — never one into a released buffer —
+at every fill level, `size == capacity` included -/
+theorem insertOneRet_spec (t t' : TVec α) (pos : Nat) (x : α) (r : Option Nat)
+    (e : insertOneRet t pos x = some (t', r)) : r = some pos ∧ insertN t pos 1 x = some t' := by
+  unfold insertOneRet at e
+  split at e
+  · rename_i hroom
+    cases hi : insertN t pos 1 x with
+    | none => simp [hi] at e
+    | some t1 =>
+      simp only [hi, Option.map_some, Option.some.injEq, Prod.mk.injEq] at e
+      obtain ⟨rfl, hr⟩ := e
+      have := keeps_insertN_room pos 1 x t t1 (by omega) hi
+      simp only [this, if_true] at hr
+      exact ⟨hr.symm, rfl⟩
+  · cases hi : insertN t pos 1 x with
+    | none => simp [hi] at e
+    | some t1 =>
+      simp only [hi, Option.map_some, Option.some.injEq, Prod.mk.injEq] at e
+      exact ⟨e.2.symm, by rw [e.1]⟩
+
+/-- **erase(first, last)** returns `first`, an iterator into the (unmoved) buffer -/
+theorem eraseRet_spec (t t' : TVec α) (first last : Nat) (r : Option Nat)
+    (e : eraseRet t first last = some (t', r)) : r = some first ∧ erase t first last = some t' := by
+  unfold eraseRet at e
+  cases he : erase t first last with
+  | none => simp [he] at e
+  | some t1 =>
+    simp only [he, Option.map_some, Option.some.injEq, Prod.mk.injEq] at e
+    obtain ⟨rfl, hr⟩ := e
+    have := keeps_erase first last t t1 he
+    simp only [this, if_true] at hr
+    exact ⟨hr.symm, rfl⟩
+
 end TVec
 end XalanModel.Containers
